@@ -460,13 +460,24 @@ func httpPost(cookie string) string {
 		"\r\nContent-Length: 32767\r\n\r\n"
 }
 
+// dial connects to the child; generous and retried, because the machine may be heavily loaded
+// (a refused connection is not retried: it means the server is gone).
 func dial(port int, useTLS bool) (net.Conn, error) {
 	addr := fmt.Sprintf("127.0.0.1:%d", port)
-	d := net.Dialer{Timeout: 5 * time.Second}
-	if useTLS {
-		return tls.DialWithDialer(&d, "tcp", addr, &tls.Config{InsecureSkipVerify: true})
+	var c net.Conn
+	var err error
+	for attempt := 0; attempt < 3; attempt++ {
+		d := net.Dialer{Timeout: 20 * time.Second}
+		if useTLS {
+			c, err = tls.DialWithDialer(&d, "tcp", addr, &tls.Config{InsecureSkipVerify: true})
+		} else {
+			c, err = d.Dial("tcp", addr)
+		}
+		if err == nil || !isTimeout(err) {
+			return c, err
+		}
 	}
-	return d.Dial("tcp", addr)
+	return c, err
 }
 
 var cookieCounter struct {
